@@ -34,12 +34,15 @@ POOL = [
     False, True, 0, 1, 2, -1, 10 ** 20, -10 ** 20,
     0.0, -0.0, 1.0, 2.5, -0.5, 1e300, float('inf'), float('-inf'),
     Decimal('0'), Decimal('1'), Decimal('2.5'), Decimal('-3'),
+    # numbers that differ only beyond what a conversion to float keeps: numbers of different types are compared exactly
+    0.1, Decimal('0.1'), Decimal('0.1000000000000000055511151231257827'), 2 ** 53 + 1, float(2 ** 53),
     b'', b'a', b'b', b'B', b'ab', b'\xff',
     '', 'a', 'b', 'B', 'ab', 'é', '1', ' ',
     D(2020, 1, 1), D(2021, 6, 15), DT(2020, 1, 1, 0, 0), DT(2020, 1, 1, 12, 30), DT(2019, 12, 31, 23, 59), T(0, 0), T(12, 30),
     (), (1,), (1, 2), (1, None), (None,), (None, 1), ('a',), ('a', 1), (1, 'a'), (b'a',), ((1,),), ((1, 2), 3), (1, (2, None)),
     [], [1], [1, 2], [None], ['a', (1,)], [[1]],
 ]
+SCALARS = [v for v in POOL if not isinstance(v, (list, tuple))]
 CLASSES = ['none', 'bool', 'int', 'float', 'Decimal', 'bytes', 'str', 'date', 'datetime', 'time', 'seq']
 
 
@@ -77,7 +80,7 @@ def cases(ctx):
     def nested(depth=0):
         r = rng.random()
         if depth >= 3 or r < 0.55:
-            return rng.choice(POOL[:42])
+            return rng.choice(SCALARS)
         n = rng.randint(0, 3)
         items = [nested(depth + 1) for _ in range(n)]
         return tuple(items) if rng.random() < 0.6 else items
